@@ -11,6 +11,7 @@ pub mod c01;
 pub mod c02;
 pub mod c09;
 pub mod c14;
+pub mod c18;
 pub mod c19;
 
 pub fn run(prop: &str, ctx: &mut Ctx) -> Result<(), String> {
@@ -19,6 +20,7 @@ pub fn run(prop: &str, ctx: &mut Ctx) -> Result<(), String> {
         "C02" => c02::run(ctx),
         "C09" => c09::run(ctx),
         "C14" => c14::run(ctx),
+        "C18" => c18::run(ctx),
         "C19" => c19::run(ctx),
         _ => return Err(format!("unknown property {}", prop)),
     }
